@@ -6,6 +6,10 @@ CONSTANTS
   Methods <- QuickMethods
   Shardings <- FullShardings
   Codes <- QuickCodes
+  MeshDirs <- NoMesh
+  MeshNames <- NoMesh
+  Tables <- NoMesh
+  MeshRewritesInfo = "keepAll"
   CfgSpace <- QuickCfg
   MaxLen = 6
   AioForwardsMethod = TRUE
